@@ -422,8 +422,11 @@ func c18ViaCSS(m *minify.M, uri []byte) (bad string, applicable bool) {
 	if !ok {
 		return "", false
 	}
-	for _, q := range []string{`"`, `'`} {
-		sheet := "a{background:url(" + q + string(uri) + q + ")}"
+	for vi, q := range []string{`"`, `'`, `"`, `'`, `"`} {
+		// (the quoted URI as it is, and broken over lines with a continuation behind the opening or in front of the
+		// closing quote: a continuation is not part of the URI)
+		body := []string{string(uri), string(uri), "\\\n" + string(uri), string(uri) + "\\\n", string(uri[:len(uri)/2]) + "\\\r\n" + string(uri[len(uri)/2:]) + "\\\r"}[vi]
+		sheet := "a{background:url(" + q + body + q + ")}"
 		out, err := m.Bytes("text/css", []byte(sheet))
 		if err != nil {
 			return fmt.Sprintf("style sheet %q fails: %v", core.Trunc(sheet, 200), err), true
